@@ -3,13 +3,16 @@
 mechanisms already used in round 1 (summaries only) so that the new changes differ."""
 import sys, json, subprocess, os, re
 pid = sys.argv[1]
+rnd = int(sys.argv[2]) if len(sys.argv) > 2 else 2
+L1, L2 = {2: ('C', 'D'), 3: ('E', 'F'), 4: ('G', 'H')}[rnd]
+OUT = '/tmp/mut/out%d' % rnd
 base = subprocess.run(['/venv/bin/python', '/verif/tools/mutant_prompt.py', pid], capture_output=True, text=True).stdout
-os.makedirs('/tmp/mut/out2/' + pid, exist_ok=True)
-base = base.replace('/tmp/mut/out/%s/' % pid, '/tmp/mut/out2/%s/' % pid).replace('(A and B)', '(C and D)').replace('X in A, B', 'X in C, D').replace('A and B must use', 'C and D must use').replace('summary of A and B', 'summary of C and D')
+os.makedirs(OUT + '/' + pid, exist_ok=True)
+base = base.replace('/tmp/mut/out/%s/' % pid, OUT + '/%s/' % pid).replace('(A and B)', '(%s and %s)' % (L1, L2)).replace('X in A, B', 'X in %s, %s' % (L1, L2)).replace('A and B must use', '%s and %s must use' % (L1, L2)).replace('summary of A and B', 'summary of %s and %s' % (L1, L2))
 prev = []
-for x in ('A', 'B'):
+for x in 'ABCDEFGH':
     f = '/verif/seeded/%s-%s/meta.json' % (pid, x)
     if os.path.exists(f):
-        prev.append('- ' + (json.load(open(f)).get('summary') or '')[:500].replace('\n', ' '))
-hint = "\n\nAn earlier round already produced the following two changes for this property; yours must use DIFFERENT mechanisms, in different functions, and should look for other corners of the property (other clauses of the statement, other layer types / options / call sequences):\n" + '\n'.join(prev) + '\n'
+        prev.append('- ' + (json.load(open(f)).get('summary') or '')[:300].replace('\n', ' '))
+hint = "\n\nEarlier rounds already produced the following changes for this property; yours must use DIFFERENT mechanisms, in different functions, and should look for other corners of the property (other clauses of the statement, other layer types / options / call sequences):\n" + '\n'.join(prev) + '\n'
 print(base.rstrip() + hint)
